@@ -1295,6 +1295,11 @@ struct sm_restore {
 
 static int sm_load_u32(struct sm_restore *sm, uint8_t type, uint32_t *val)
 {
+    if (sm->state >= sm->state_end) {
+        strophe_error(sm->conn->ctx, "conn",
+                      "Provided sm_state data is too short");
+        return XMPP_EINVOP;
+    }
     if (*sm->state != type) {
         strophe_error(
             sm->conn->ctx, "conn",
